@@ -52,10 +52,23 @@ def _classify_parts_expr(fn: FuncInfo, e: ast.expr, depth: int = 0, seen: Option
         # follow local assignments
         out: Set[str] = set()
         found = False
+        # a list filled element by element: `xs = []` ... `xs.append(E)`
+        appended = [
+            c.args[0] for c in calls(fn.node, "append")
+            if isinstance(c.func, ast.Attribute) and path_of(c.func.value) == e.id and len(c.args) == 1
+        ]
+        if appended:
+            for a_ in appended:
+                out |= _classify_elem(fn, a_, depth + 1)
+            return out
         for n in ast.walk(fn.node):
             value = None
             if isinstance(n, ast.Assign) and any(isinstance(t, ast.Name) and t.id == e.id for t in n.targets):
                 value = n.value
+            elif isinstance(n, ast.Assign) and len(n.targets) == 1 and isinstance(n.targets[0], ast.Tuple) and any(
+                isinstance(t, ast.Starred) and isinstance(t.value, ast.Name) and t.value.id == e.id for t in n.targets[0].elts
+            ):
+                value = n.value  # `*head, _ = X`: a slice of X
             elif isinstance(n, ast.AnnAssign) and isinstance(n.target, ast.Name) and n.target.id == e.id:
                 value = n.value
             if value is not None:
@@ -115,6 +128,37 @@ def _classify_parts_expr(fn: FuncInfo, e: ast.expr, depth: int = 0, seen: Option
         return {"?"}
     if isinstance(e, ast.Tuple) and not e.elts:
         return set()
+    return {"?"}
+
+
+_STR_TO_STR = ("unquote", "decode", "replace", "encode", "_unicode_escape")
+
+
+def _classify_elem(fn: FuncInfo, e: ast.expr, depth: int = 0) -> Set[str]:
+    """How one element of a `parts` value is normalised (same classes as _classify_parts_expr)."""
+    if depth > 12:
+        return {"?"}
+    if isinstance(e, ast.IfExp):
+        return _classify_elem(fn, e.body, depth + 1) | _classify_elem(fn, e.orelse, depth + 1)
+    if isinstance(e, ast.Call):
+        name = callee_name(e)
+        if name == "_index":
+            return {"index"}
+        if name == "str":
+            return {"str"}
+        if name in _STR_TO_STR:
+            subject = e.args[0] if e.args else (e.func.value if isinstance(e.func, ast.Attribute) else None)
+            return _classify_elem(fn, subject, depth + 1) if subject is not None else {"?"}
+        return {"?"}
+    if isinstance(e, ast.Name):
+        defs = [n.value for n in ast.walk(fn.node) if isinstance(n, ast.Assign) and len(n.targets) == 1
+                and isinstance(n.targets[0], ast.Name) and n.targets[0].id == e.id]
+        if defs:
+            out: Set[str] = set()
+            for d in defs:
+                out |= _classify_elem(fn, d, depth + 1)
+            return out
+        return {"?"}
     return {"?"}
 
 
@@ -250,10 +294,19 @@ def r14_4(ctx: Ctx) -> RuleResult:
             good_root = True
         elif r.value is not None and "empty@self.parts" not in st:
             # must be built from self.parts[:-1]
-            src = ast.unparse(parent.node)
-            if "self.parts[:-1]" in src and "self.parts[:-1]" in "".join(
-                ast.unparse(n.value) for n in ast.walk(parent.node) if isinstance(n, ast.Assign)
-            ) or "self.parts[:-1]" in ast.unparse(r.value):
+            # "all but the last token": self.parts[:-1], or `*head, _ = self.parts` with head used in the result
+            from .common import expand_locals
+
+            full = ast.unparse(expand_locals(parent.node, r.value))
+            heads = [
+                t.elts[0].value.id for n in ast.walk(parent.node)
+                if isinstance(n, ast.Assign) and len(n.targets) == 1 and path_of(n.value) == "self.parts"
+                for t in [n.targets[0]] if isinstance(t, ast.Tuple) and len(t.elts) == 2 and isinstance(t.elts[0], ast.Starred)
+                and isinstance(t.elts[0].value, ast.Name) and isinstance(t.elts[1], ast.Name)
+            ]
+            if "self.parts[:-1]" in full or any(
+                isinstance(x, ast.Name) and x.id in heads for x in ast.walk(r.value)
+            ):
                 good_slice = True
     if good_root and good_slice:
         rr.ok(parent.loc(), "parent(): self when parts is empty, else built from parts[:-1]")
@@ -265,22 +318,34 @@ def r14_4(ctx: Ctx) -> RuleResult:
     td = cls.methods.get("__truediv__")
     if td is None:
         raise AnalysisError("JSONPointer.__truediv__ not found")
-    other = td.node.args.args[1].arg
-    ifs = [
-        n for n in ast.walk(td.node)
-        if isinstance(n, ast.If) and isinstance(n.test, ast.Call) and callee_name(n.test) == "startswith"
-        and path_of(n.test.func.value) == other  # type: ignore[union-attr]
-        and n.test.args and isinstance(n.test.args[0], ast.Constant) and n.test.args[0].value == "/"
-    ]
+    def leading_slash_subject(t: ast.expr) -> Optional[str]:
+        """X for `X.startswith("/")` and `X[:1] == "/"`."""
+        if isinstance(t, ast.Call) and callee_name(t) == "startswith" and isinstance(t.func, ast.Attribute) and t.args and isinstance(
+            t.args[0], ast.Constant) and t.args[0].value == "/":
+            return path_of(t.func.value)
+        if (
+            isinstance(t, ast.Compare) and len(t.ops) == 1 and isinstance(t.ops[0], ast.Eq) and isinstance(t.comparators[0], ast.Constant)
+            and t.comparators[0].value == "/" and isinstance(t.left, ast.Subscript) and isinstance(t.left.slice, ast.Slice)
+            and t.left.slice.lower is None and isinstance(t.left.slice.upper, ast.Constant) and t.left.slice.upper.value == 1
+        ):
+            return path_of(t.left.value)
+        return None
+
+    from .common import path_conditions as _pc
+
     good = False
-    for i in ifs:
-        for s in i.body:
-            if isinstance(s, ast.Return) and isinstance(s.value, ast.Call) and callee_name(s.value) in ("JSONPointer", "cls"):
-                a0 = s.value.args[0] if s.value.args else None
-                if a0 is not None and path_of(a0) == other and not any(
-                    isinstance(x, ast.Attribute) and x.attr == "parts" for x in ast.walk(s.value)
-                ):
-                    good = True
+    for r_ in [n for n in ast.walk(td.node) if isinstance(n, ast.Return)]:
+        subjects = [leading_slash_subject(t) for t, b in _pc(td.node, r_) if b]
+        subjects = [x for x in subjects if x]
+        if not subjects:
+            continue
+        v = r_.value
+        if isinstance(v, ast.Call) and callee_name(v) in ("JSONPointer", "cls"):
+            a0 = v.args[0] if v.args else None
+            if a0 is not None and path_of(a0) in subjects and not any(
+                isinstance(x, ast.Attribute) and x.attr == "parts" for x in ast.walk(v)
+            ):
+                good = True
     if good:
         rr.ok(td.loc(), "__truediv__: a part starting with `/` yields a pointer built from that part alone")
     else:
